@@ -12,10 +12,16 @@ B = tys.Bool
 NAMES = [("my.ext", "T"), ("my.ext", "U"), ("other.ext", "T")]
 
 
-def registry():
+def registry(op_sig_choice=False):
     """Registry with symbolic membership: 'my.ext' present or not, with any subset of {type T, type U, op Op}."""
     reg = ext.ExtensionRegistry()
     have = {}
+    # history: the registry is consulted for the extensions BEFORE they are added (failed lookups must leave nothing behind)
+    for name in ("my.ext", "other.ext", "seq.ext"):
+        try:
+            reg.get_extension(name)
+        except ext.ExtensionRegistry.ExtensionNotFound:
+            pass
     if sym.concretize(sym.bool("reg.my_ext")):
         e = ext.Extension("my.ext", ext.Version(0, 1, 0))
         both = sym.concretize(sym.bool("reg.type_T"))
@@ -24,7 +30,13 @@ def registry():
                 e.add_type_def(ext.TypeDef(t, "described", [tys.TypeTypeParam(TypeBound.Any), tys.TypeTypeParam(TypeBound.Any)], ext.FromParamsBound([0, 1])))
                 have[("my.ext", t)] = True
         if sym.concretize(sym.bool("reg.op")):
-            e.add_op_def(ext.OpDef("Op", ext.OpDefSig(None, True), "definition's description"))
+            # the held definition is binary (no static signature) or - op lemmas only - monomorphic with a signature of its own,
+            # which need not be the one the document records (e.g. another version of the extension)
+            if op_sig_choice and sym.concretize(sym.bool("reg.op_has_monomorphic_signature")):
+                sig = ext.OpDefSig(tys.FunctionType([B, B, B], [B, B]))
+            else:
+                sig = ext.OpDefSig(None, True)
+            e.add_op_def(ext.OpDef("Op", sig, "definition's description"))
             have[("my.ext", "Op")] = True
         reg.add_extension(e)
     if P(False, True) and sym.concretize(sym.bool("reg.unrelated")):
@@ -140,7 +152,7 @@ def type_resolution(kind):
               "(quick) / all of depth 1 (thorough); registries as in type_resolution",
        opts={"max_paths": 400000, "timeout_s": 3000, "optional_clauses": ["op_resolution_idempotent", "resolved_op_is_the_registry_definition", "type_args_resolved"]})
 def op_resolution(which):
-    reg, have = registry()
+    reg, have = registry(op_sig_choice=(which == 0))
     en, on = [("my.ext", "Op"), ("my.ext", "Missing"), ("other.ext", "Op")][which]
     ti, to = (tys.Bool if P(True, False) else expr("in", 1)), expr("out", 1)
     ta = opaque("arg", 0) if P(True, False) else expr("arg", 1)
@@ -171,7 +183,7 @@ def op_resolution(which):
 def hugr_resolution_touches_only_custom_nodes():
     import json
     from hugr.build.dfg import Dfg
-    reg, have = registry()
+    reg, have = registry(op_sig_choice=True)
     d = Dfg(tys.Bool)
     opq = tys.Opaque("T", TypeBound.Any, [tys.TypeTypeArg(tys.Qubit), tys.TypeTypeArg(tys.Bool)], "my.ext")
     a = d.add_op(ops.Custom("Op", tys.FunctionType([tys.Bool], [opq]), "x", "my.ext", []), d.inputs()[0])
